@@ -83,7 +83,10 @@ class GatedAsync(Backend):
     async def exists(self, name):
         await self._gate('exists ' + name[-6:])
         try:
-            return name in self.objects
+            r = name in self.objects
+            if r and getattr(self, 'on_done', None):
+                self.on_done(name)
+            return r
         finally:
             self.gate.leave()
 
@@ -101,6 +104,8 @@ class GatedAsync(Backend):
             while piece := stream.read(chunk_size):
                 buf += piece
             self.objects[name] = bytes(buf)
+            if getattr(self, 'on_done', None):
+                self.on_done(name)
         finally:
             self.gate.leave()
 
@@ -156,7 +161,10 @@ class GatedPlain(Backend):
     def exists(self, name):
         self._gate('exists ' + name[-6:])
         try:
-            return name in self.objects
+            r = name in self.objects
+            if r and getattr(self, 'on_done', None):
+                self.on_done(name)
+            return r
         finally:
             self.gate.leave()
 
@@ -174,6 +182,8 @@ class GatedPlain(Backend):
             while piece := stream.read(chunk_size):
                 buf += piece
             self.objects[name] = bytes(buf)
+            if getattr(self, 'on_done', None):
+                self.on_done(name)
         finally:
             self.gate.leave()
 
@@ -203,6 +213,52 @@ class GatedPlain(Backend):
             self.objects.pop(name, None)
         finally:
             self.gate.leave()
+
+
+class PipeLog:
+    """event log of the snapshot pipeline: P(counter) inside Queue._put, G(counter) inside Queue._get (both under the queue's
+    own mutex, so their order is the real order), F(counter) when the backend work for the chunk a worker holds completes"""
+
+    def __init__(self):
+        self.lock = threading.Lock()
+        self.events = []
+        self.cap = None
+        self.held = {}          # location -> counters taken off the queue and not yet completed
+
+    def module(self):
+        import queue as _queue
+        log = self
+
+        class LoggedQueue(_queue.Queue):
+            def __init__(self, maxsize=0):
+                super().__init__(maxsize)
+                log.cap = maxsize
+
+            def _put(self, item):
+                super()._put(item)
+                with log.lock:
+                    log.events.append(('P', item.counter))
+
+            def _get(self):
+                item = super()._get()
+                with log.lock:
+                    log.events.append(('G', item.counter))
+                    log.held.setdefault(item.location, []).append(item.counter)
+                return item
+
+        class QueueModule:
+            Queue = LoggedQueue
+            Empty, Full = _queue.Empty, _queue.Full
+
+            def __getattr__(self, name):
+                return getattr(_queue, name)
+        return QueueModule()
+
+    def finished(self, location):
+        with self.lock:
+            l = self.held.get(location)
+            if l:
+                self.events.append(('F', l.pop(0)))
 
 
 async def drive(gate: Gate, task: asyncio.Future, chooser, settle=0.004):
@@ -399,9 +455,17 @@ def run_case(case, wd: Path, chooser_factory):
             gate.entered = 0
             gate.fail_at = case['fail_at'] if case['fail_phase'] == 'snapshot' else None
             gate.fail_from = case.get('down_from') if case['fail_phase'] == 'snapshot' else None
+            plog = PipeLog()
+            saved_queue = R.queue
+            R.queue = plog.module()
+            backend.on_done = plog.finished
             t = asyncio.ensure_future(repo.snapshot(paths=[wd / 'src']))
             try:
-                await asyncio.wait_for(drive(gate, t, chooser), 25)
+                try:
+                    await asyncio.wait_for(drive(gate, t, chooser), 25)
+                finally:
+                    R.queue = saved_queue
+                    backend.on_done = None
             except (asyncio.TimeoutError, TimeoutError):
                 obs['problems'].append(('snapshot does not terminate under this completion order', 'hang'))
                 t.cancel()
@@ -422,6 +486,7 @@ def run_case(case, wd: Path, chooser_factory):
                 obs['problems'].append(('a backend call failed but snapshot reported success', 'swallowed'))
                 return
             gate.fail_from = None
+            obs['pipe_trace'] = (plog.cap, list(plog.events))
             manifest = canon_manifest(t.result())
             if manifest != seq_manifest:
                 obs['problems'].append(('snapshot manifest differs from the sequential run', 'manifest'))
@@ -534,6 +599,8 @@ def check(case, ctx, rep: Report, chooser_factory, tag):
     rep.count('flavour=' + case['flavour'])
     rep.count('fail=' + ('down' if case.get('down_from') is not None else 'none' if case['fail_at'] is None else case['fail_phase']))
     rep.count('rendezvous_met', obs.get('rendezvous_met', 0))
+    if obs.get('pipe_trace'):
+        rep.extra.setdefault('_pipe_traces', []).append((obs['pipe_trace'][0], obs['pipe_trace'][1], case))
     for tr in obs.get('slot_traces', []):
         rep.extra.setdefault('_slot_traces', []).append((N, tr, case))
     rep.sample({'case': {k: case[k] for k in ('mn', 'mx', 'N', 'flavour', 'fail_at', 'fail_phase', 'rendezvous', 'mode')},
@@ -666,6 +733,45 @@ def queue_race_probe(ctx, rep: Report):
         shutil.rmtree(wd, ignore_errors=True)
 
 
+def validate_pipe_traces(rep: Report):
+    """the put / get / completion events recorded on the real snapshot pipeline must be accepted by Model/Sched.pipe_trace
+    (vm_compute): capacity respected, gets take the head of the queue, completions are of chunks held; at the end nothing is
+    queued or held and (pipe_trace_exactly_once) the processed chunks are exactly the chunks put"""
+    traces = rep.extra.pop('_pipe_traces', [])
+    if not traces:
+        return
+    per = 80
+    jobs = []
+    for i in range(0, len(traces), per):
+        L = ['From Coq Require Import List Arith.', 'From Replicat Require Import Model.Sched.', 'Import ListNotations.',
+             'Definition cases : list (nat * list pev) := [']
+        items = []
+        for cap, evs, _ in traces[i:i + per]:
+            body = '; '.join({'P': 'EvPut %d', 'G': 'EvGet %d', 'F': 'EvFin %d'}[k] % c for k, c in evs)
+            items.append('  (%d, [%s])' % (cap, body))
+        L.append(';\n'.join(items))
+        L.append('].')
+        L.append('Eval vm_compute in map (fun c => match pipe_trace (fst c) [] [] [] (snd c) with '
+                 'Some (q, h, d) => (1, length q, length h, length d, length (puts_of (snd c))) | None => (0, 0, 0, 0, 0) end) cases.')
+        jobs.append((f'c09_pipe_{i // per}', '\n'.join(L) + '\n'))
+    res = core.coq_eval_files(jobs)
+    out = []
+    for name, _ in jobs:
+        rc, text = res[name]
+        if rc != 0:
+            rep.disagreements.append({'what': 'the pipeline model could not be evaluated: ' + text[-800:], 'replay': None})
+            return
+        out += core.parse_coq_term(core.parse_coq_values(text)[-1])
+    for (cap, evs, case), (ok, nq, nh, nd, nput) in zip(traces, out):
+        rep.traces_validated += 1
+        if not ok:
+            rep.disagreements.append({'what': f'a pipeline trace of the implementation is not a trace of the model (capacity {cap}): {evs[:14]}...', 'replay': case})
+        elif nq or nh or nd != nput:
+            rep.violations.append({'what': f'snapshot returned with {nq} chunk(s) still queued, {nh} in a worker\'s hands, {nd} of {nput} processed',
+                                   'signature': {'kind': 'chunks_not_processed', 'flavour': case['flavour']}, 'replay': case})
+    rep.count('pipeline_events_validated', sum(len(evs) for _, evs, _ in traces))
+
+
 def _run(ctx, n_random, n_forced, n_perm, rep):
     # forced finalisation race
     for k in range(n_forced):
@@ -692,6 +798,7 @@ def _run(ctx, n_random, n_forced, n_perm, rep):
         check(case, ctx, rep, lambda r=r: (lambda n: r.randrange(n)), f'rnd{i}')
     queue_race_probe(ctx, rep)
     validate_slot_traces(rep)
+    validate_pipe_traces(rep)
 
 
 def run(ctx) -> Report:
